@@ -26,7 +26,6 @@ use std::sync::{Arc, OnceLock};
 
 pub use crate::c08gen::generate;
 
-pub const OVERSIZE_SLACK: usize = 1 << 20;
 pub const ZERO_COL_ROW_CAP: usize = 1000;
 /// A decode that has not finished after this long is a hang.  (Every legitimate case takes milliseconds; the margin
 /// absorbs scheduling starvation when the machine is saturated by parallel checks and builds.)
@@ -680,17 +679,24 @@ fn rle(items: &[String]) -> String {
 
 pub const NTH_ARGS: [usize; 8] = [0, 1, 2, 3, 9000, 65534, 65535, usize::MAX];
 
-/// ` nth=[n:class;…]` for a result whose single column is a vector with fixed-size elements (`var` otherwise):
-/// `VectorIterator::<CqlValue>::nth(n)` on a fresh iterator over the first row's cell, class none / ok / err.
+/// ` nth=[n:class:size_hint:class of the following next():hash of both items;…]` for a result whose single column is
+/// a vector: `VectorIterator::<CqlValue>::nth(n)` on a fresh iterator over the first row's cell, then `size_hint().0`,
+/// then one more `next()`.
 fn nth_token(dm: &result::DeserializedMetadataAndRawRows) -> String {
     use scylla_cql::deserialize::value::VectorIterator;
     let specs = dm.metadata().col_specs();
     if specs.len() != 1 || dm.rows_count() == 0 {
         return String::new();
     }
-    let ColumnType::Vector { typ, .. } = specs[0].typ() else { return String::new() };
-    let fixed = typ.type_size_for_vector().is_some();
+    let ColumnType::Vector { .. } = specs[0].typ() else { return String::new() };
     let Ok(mut it) = dm.rows_iter::<(VectorIterator<CqlValue>,)>() else { return " nth=typecheck".into() };
+    fn item(i: Option<Result<CqlValue, scylla_cql::deserialize::DeserializationError>>) -> (&'static str, String) {
+        match i {
+            None => ("none", "none".to_owned()),
+            Some(Err(_)) => ("err", "err".to_owned()),
+            Some(Ok(v)) => ("ok", crate::c01::val_str(&crate::c01::from_cql(&v))),
+        }
+    }
     match it.next() {
         None => String::new(),
         Some(Err(_)) => " nth=rowerr".into(),
@@ -698,15 +704,15 @@ fn nth_token(dm: &result::DeserializedMetadataAndRawRows) -> String {
             let mut out: Vec<String> = Vec::new();
             for n in NTH_ARGS {
                 let mut c = vi.clone();
-                let cls = match c.nth(n) {
-                    None => "none",
-                    Some(Ok(_)) => "ok",
-                    Some(Err(_)) => "err",
-                };
-                let _ = c.size_hint();
-                out.push(format!("{}:{}", n, cls));
+                let a = item(c.nth(n));
+                let hint = c.size_hint();
+                if hint.1 != Some(hint.0) {
+                    ORACLE.with(|o| o.borrow_mut().push("VectorIterator::size_hint is not exact".into()));
+                }
+                let b = item(c.next());
+                out.push(format!("{}:{}:{}:{}:{:016x}", n, a.0, hint.0, b.0, fnv(&format!("{}|{}", a.1, b.1))));
             }
-            if fixed { format!(" nth={}", lst(&out)) } else { " nth=var".into() }
+            format!(" nth={}", lst(&out))
         }
     }
 }
@@ -744,6 +750,81 @@ fn typed_decoders(dm: &result::DeserializedMetadataAndRawRows, cap: usize) {
     try_t!((Option<Vec<Vec<i32>>>,));
     try_t!((Option<Vec<Vec<Vec<i32>>>>,));
     try_t!((Option<Vec<Vec<Vec<Vec<i64>>>>>,));
+    // ordered / hashed collections (their decode collects from the lazy iterators), carriers of the other natives
+    try_t!((Option<std::collections::BTreeMap<i32, Option<String>>>,));
+    try_t!((Option<std::collections::BTreeMap<String, i64>>,));
+    try_t!((Option<std::collections::BTreeSet<i32>>,));
+    try_t!((Option<std::collections::BTreeSet<String>>,));
+    try_t!((Option<std::collections::HashSet<i32>>,));
+    try_t!((Option<std::collections::HashSet<String>>,));
+    try_t!((Option<HashMap<String, Option<i32>>>,));
+    try_t!((Option<HashMap<i64, Vec<Option<i32>>>>,));
+    try_t!((Option<scylla_cql::value::MaybeEmpty<i32>>,));
+    try_t!((Option<scylla_cql::value::MaybeEmpty<i64>>,));
+    try_t!((Option<scylla_cql::value::CqlDecimal>,));
+    try_t!((Option<scylla_cql::value::CqlVarint>,));
+    try_t!((Option<std::net::IpAddr>,));
+    try_t!((Option<uuid::Uuid>,));
+    try_t!((Option<scylla_cql::value::CqlTimeuuid>,));
+    try_t!((Option<scylla_cql::value::CqlTime>,));
+    try_t!((Option<scylla_cql::value::CqlDate>,));
+    try_t!((Option<scylla_cql::value::CqlTimestamp>,));
+    try_t!((Option<scylla_cql::value::CqlDuration>,));
+    try_t!((Option<scylla_cql::value::Counter>,));
+    try_t!((Option<bool>, Option<f64>));
+    try_t!((Option<i8>, Option<i16>, Option<f32>));
+    // carriers of the external crates (their decoders do arithmetic on dates / big numbers)
+    try_t!((Option<chrono_04::NaiveDate>,));
+    try_t!((Option<chrono_04::NaiveTime>,));
+    try_t!((Option<chrono_04::DateTime<chrono_04::Utc>>,));
+    try_t!((Option<time_03::Date>,));
+    try_t!((Option<time_03::Time>,));
+    try_t!((Option<time_03::OffsetDateTime>,));
+    try_t!((Option<bigdecimal_04::BigDecimal>,));
+    try_t!((Option<num_bigint_04::BigInt>,));
+    try_t!((Option<num_bigint_03::BigInt>,));
+    // the lazy iterators themselves, polled PAST their errors (at most `cap` items per row)
+    {
+        use scylla_cql::deserialize::value::{ListlikeIterator, MapIterator, UdtIterator, VectorIterator};
+        let per_row = cap.min(70_000);
+        if let Ok(it) = dm.rows_iter::<(ListlikeIterator<CqlValue>,)>() {
+            for r in it.take(cap.min(50)) {
+                if let Ok((li,)) = r {
+                    let _ = li.size_hint();
+                    let mut n = 0usize;
+                    for _ in li.take(per_row) {
+                        n += 1;
+                    }
+                    let _ = n;
+                }
+            }
+        }
+        if let Ok(it) = dm.rows_iter::<(MapIterator<CqlValue, CqlValue>,)>() {
+            for r in it.take(cap.min(50)) {
+                if let Ok((mi,)) = r {
+                    let _ = mi.size_hint();
+                    for _ in mi.take(per_row) {}
+                }
+            }
+        }
+        if let Ok(it) = dm.rows_iter::<(VectorIterator<CqlValue>,)>() {
+            for r in it.take(cap.min(50)) {
+                if let Ok((vi,)) = r {
+                    for _ in vi.take(per_row) {}
+                }
+            }
+        }
+        if let Ok(it) = dm.rows_iter::<(UdtIterator,)>() {
+            for r in it.take(cap.min(50)) {
+                if let Ok((ui,)) = r {
+                    let _ = ui.size_hint();
+                    for (_field, raw) in ui.take(per_row) {
+                        let _ = raw.is_ok();
+                    }
+                }
+            }
+        }
+    }
     try_t!((Option<CqlValue>,));
     try_t!((Option<CqlValue>, Option<CqlValue>));
     try_t!((Option<CqlValue>, Option<CqlValue>, Option<CqlValue>));
@@ -854,32 +935,12 @@ fn pipeline(c: &FrameCase) -> (String, Vec<String>) {
 
 fn pipeline_inner(c: &FrameCase) -> String {
     let bs = &c.bytes;
-    // guard: the header-announced length is reserved up front by read_response_frame (the driver's own TODO,
-    // outside C08's claim): such frames are not handed to it.
-    if bs.len() >= 9 && bs[0] & 0x80 == 0x80 && bs[0] & 0x7f == 4 && ResponseOpcode::try_from(bs[4]).is_ok() {
-        let l = u32::from_be_bytes([bs[5], bs[6], bs[7], bs[8]]) as usize;
-        if l > bs.len() - 9 + OVERSIZE_SLACK {
-            return "err hdr.toolarge".into();
-        }
-    }
     let rt = tokio::runtime::Builder::new_current_thread().build().unwrap();
     let mut reader: &[u8] = &bs[..];
     let (params, opcode, body) = match rt.block_on(frame::read_response_frame(&mut reader)) {
         Ok(x) => x,
         Err(e) => {
-            return format!(
-                "err hdr.{}",
-                match e {
-                    FrameHeaderParseError::HeaderIoError(_) => "io",
-                    FrameHeaderParseError::FrameFromClient => "fromclient",
-                    FrameHeaderParseError::FrameFromServer => "fromserver",
-                    FrameHeaderParseError::VersionNotSupported(_) => "version",
-                    FrameHeaderParseError::UnknownResponseOpcode(_) => "opcode",
-                    FrameHeaderParseError::BodyChunkIoError(_, _) => "bodyio",
-                    FrameHeaderParseError::ConnectionClosed(_, _) => "closed",
-                    _ => "hdr?",
-                }
-            );
+            return format!("err hdr.{}", hdr_err_kind(&e));
         }
     };
     let mut line = format!("h={},{},{}", params.flags, params.stream, opcode as u8);
@@ -936,6 +997,19 @@ fn pipeline_inner(c: &FrameCase) -> String {
     match ResponseV2::deserialize(&c.features, opcode, ext.body, cached.as_ref()) {
         Err(e) => format!("{} err {}", line, response_err(&e)),
         Ok(r) => format!("{} {}", line, response_str(r, c.rl)),
+    }
+}
+
+fn hdr_err_kind(e: &FrameHeaderParseError) -> &'static str {
+    match e {
+        FrameHeaderParseError::HeaderIoError(_) => "io",
+        FrameHeaderParseError::FrameFromClient => "fromclient",
+        FrameHeaderParseError::FrameFromServer => "fromserver",
+        FrameHeaderParseError::VersionNotSupported(_) => "version",
+        FrameHeaderParseError::UnknownResponseOpcode(_) => "opcode",
+        FrameHeaderParseError::BodyChunkIoError(_, _) => "bodyio",
+        FrameHeaderParseError::ConnectionClosed(_, _) => "closed",
+        _ => "hdr?",
     }
 }
 
@@ -1052,6 +1126,26 @@ pub fn run(case: &str, ctx: &mut Ctx) -> String {
             Some(bs) => format!("{} {}", w[1..10].join(" "), crate::c08gen::uni_table(&bs)),
             None => "bad-case".into(),
         },
+        // `h <frame hex>`: `read_response_frame` alone, WITHOUT the harness's oversize guard (allocation oracle on)
+        Some("h") if w.len() == 2 => {
+            let Some(bs) = unhex(w[1]) else { return "bad-case".into() };
+            let n = bs.len();
+            let o = guarded(move || {
+                let rt = tokio::runtime::Builder::new_current_thread().build().unwrap();
+                let mut reader: &[u8] = &bs[..];
+                let before = c08alloc::peek().1;
+                let r = match rt.block_on(frame::read_response_frame(&mut reader)) {
+                    Ok((p, op, body)) => format!("hdr ok {},{},{} len={}", p.flags, p.stream, op as u8, body.len()),
+                    Err(e) => format!("hdr err {}", hdr_err_kind(&e)),
+                };
+                // the largest single allocation request made while reading (the body buffer's capacity), compared
+                // with the model when it is large enough to stand out from the runtime's own small allocations
+                let maxreq = c08alloc::peek().1;
+                let cap = if maxreq >= 65536 && maxreq > before { maxreq.to_string() } else { "small".to_owned() };
+                (format!("{} cap={}", r, cap), vec![])
+            });
+            finish(o, n, "-", ctx)
+        }
         // `e <cap> <frame hex>`: the error tail of the row iterator (items yielded after the first failing row)
         Some("e") if w.len() == 3 => {
             let (Ok(cap), Some(bs)) = (w[1].parse::<usize>(), unhex(w[2])) else { return "bad-case".into() };
